@@ -1647,3 +1647,110 @@ func WalkOperands(v ssa.Value, depth int, f func(ssa.Value)) {
 	}
 	rec(v, depth)
 }
+
+// ---------------------------------------------------------------- loops
+
+// NaturalLoop returns the blocks of the natural loop whose header is head
+// (head plus every block that reaches a back edge into head without passing
+// through head). nil if head has no back edge.
+func NaturalLoop(head *ssa.BasicBlock) map[*ssa.BasicBlock]bool {
+	loop := map[*ssa.BasicBlock]bool{}
+	var stack []*ssa.BasicBlock
+	for _, p := range head.Preds {
+		if head.Dominates(p) {
+			if !loop[p] && p != head {
+				loop[p] = true
+				stack = append(stack, p)
+			}
+			loop[head] = true
+		}
+	}
+	if !loop[head] {
+		return nil
+	}
+	for len(stack) > 0 {
+		b := stack[len(stack)-1]
+		stack = stack[:len(stack)-1]
+		for _, p := range b.Preds {
+			if !loop[p] {
+				loop[p] = true
+				stack = append(stack, p)
+			}
+		}
+	}
+	return loop
+}
+
+// LoopExits lists the CFG edges that leave the natural loop of head.
+func LoopExits(head *ssa.BasicBlock) []Edge {
+	loop := NaturalLoop(head)
+	var out []Edge
+	for b := range loop {
+		for i, s := range b.Succs {
+			if !loop[s] {
+				out = append(out, Edge{b, i})
+			}
+		}
+	}
+	sort.Slice(out, func(i, j int) bool {
+		if out[i].From.Index != out[j].From.Index {
+			return out[i].From.Index < out[j].From.Index
+		}
+		return out[i].Idx < out[j].Idx
+	})
+	return out
+}
+
+// LoopsOver returns the header blocks of loops that iterate over a value
+// matching p: ascending index loops (`i < len(x)`), descending index loops
+// (`i >= 0` with i starting at `len(x) - 1`) and map/string ranges.
+func LoopsOver(fn *ssa.Function, p func(ssa.Value) bool) []*ssa.BasicBlock {
+	var out []*ssa.BasicBlock
+	lenOf := func(v ssa.Value) ssa.Value {
+		if call, ok := v.(*ssa.Call); ok {
+			if bi, ok := call.Call.Value.(*ssa.Builtin); ok && bi.Name() == "len" && len(call.Call.Args) == 1 {
+				return call.Call.Args[0]
+			}
+		}
+		return nil
+	}
+	for _, b := range fn.Blocks {
+		if len(b.Instrs) == 0 || NaturalLoop(b) == nil {
+			continue
+		}
+		iff, ok := b.Instrs[len(b.Instrs)-1].(*ssa.If)
+		if !ok {
+			continue
+		}
+		match := false
+		switch c := iff.Cond.(type) {
+		case *ssa.BinOp:
+			if c.Op == token.LSS {
+				if x := lenOf(c.Y); x != nil && p(x) {
+					match = true
+				}
+			}
+			if c.Op == token.GEQ || c.Op == token.GTR {
+				if phi, ok := c.X.(*ssa.Phi); ok {
+					for _, e := range phi.Edges {
+						if bo, ok := e.(*ssa.BinOp); ok && bo.Op == token.SUB {
+							if x := lenOf(bo.X); x != nil && p(x) {
+								match = true
+							}
+						}
+					}
+				}
+			}
+		case *ssa.Extract:
+			if nx, ok := c.Tuple.(*ssa.Next); ok && c.Index == 0 {
+				if rg, ok := nx.Iter.(*ssa.Range); ok && p(rg.X) {
+					match = true
+				}
+			}
+		}
+		if match {
+			out = append(out, b)
+		}
+	}
+	return out
+}
